@@ -186,7 +186,13 @@ def main():
         viols += res['violations']
         crashes += res['crashes']
     # ---- model disagreements: confirm each minimal history twice in a fresh process
-    for v in viols:
+    merged = {}
+    for v in viols:                      # one entry per key: first (shallowest, first kind) history, counts added up
+        if v['key'] in merged:
+            merged[v['key']]['count'] += v['count']
+        else:
+            merged[v['key']] = dict(v)
+    for v in merged.values():
         key = 'C13/' + v['key']
         pruned += v['count']
         r1 = replay(exe, v['kind'], v['ops'])
